@@ -280,6 +280,10 @@ theorem libProc_list_pred (b : Nat) : libProc "list?" b =
     .closure (.mk ⟨["x"], none⟩ [] [ite (ca "eq?" [sy "x", q0]) (pr (.bool true)) (ite (ca "pair?" [sy "x"]) (ite (ca "list?" [ca "cdr" [sy "x"]]) (pr (.bool true)) (pr (.bool false))) (pr (.bool false)))]) b :=
   libProc_of_index (i := 29) rfl b
 
+/- from here on `libProc name b` is only ever rewritten with the lemmas above: unfolding it would
+re-run the transformer -/
+attribute [irreducible] libProc
+
 /-! ## 2. stores: appended frames, lookups, the frame of a procedure call -/
 
 end Ruschm.ListLib
@@ -1491,6 +1495,159 @@ theorem papp_make_list (fill : Value) (n : Nat) : ∀ (k : Int), k.toNat = n →
       omega
 
 end procs3
+
+/-! ## `append` -/
+
+section append
+variable {b ρ : Nat} {bs : List (String × Value)}
+
+/-- a name of the library as an operand -/
+theorem PEval.sym {y l v} (hf : ∀ σ, Scope b ρ bs σ → σ.lookup ρ y = some v) : PEval b ρ bs (.sym y l) (.ok v) :=
+  fun σ h => ⟨σ, Evals.sym (hf σ h), .refl σ⟩
+
+theorem PEval.call3 {f l a₁ a₂ a₃ l' fv r₁ r₂ r₃} {k : Value → Value → Value → Except SErr Value}
+    (hf : ∀ σ, Scope b ρ bs σ → σ.lookup ρ f = some fv) (hp : (procArity fv).isSome)
+    (h₁ : PEval b ρ bs a₁ r₁) (h₂ : PEval b ρ bs a₂ r₂) (h₃ : PEval b ρ bs a₃ r₃)
+    (hk : ∀ v₁ v₂ v₃, r₁ = .ok v₁ → r₂ = .ok v₂ → r₃ = .ok v₃ → PApp b fv [v₁, v₂, v₃] (k v₁ v₂ v₃)) :
+    PEval b ρ bs (.call (.sym f l) [a₁, a₂, a₃] l')
+      (r₁.bind fun v₁ => r₂.bind fun v₂ => r₃.bind fun v₃ => k v₁ v₂ v₃) := by
+  refine (PEval.call (k := fun vs => match vs with | [v₁, v₂, v₃] => k v₁ v₂ v₃ | _ => .error (.other, none)) hf hp
+    (PArgs.cons h₁ (PArgs.cons h₂ (PArgs.cons h₃ PArgs.nil))) ?_).congr ?_
+  · intro vs hvs
+    cases r₁ with
+    | error er => cases hvs
+    | ok v₁ =>
+      cases r₂ with
+      | error er => cases hvs
+      | ok v₂ =>
+        cases r₃ with
+        | error er => cases hvs
+        | ok v₃ => cases hvs; exact hk v₁ v₂ v₃ rfl rfl rfl
+  · cases r₁ <;> cases r₂ <;> cases r₃ <;> rfl
+
+theorem elems_ofList (xs : List Value) : (Value.ofList xs).elems = xs := by
+  induction xs <;> simp_all [Value.ofList, Value.elems]
+
+theorem spreadApply_ofList {f : Value} (hf : (procArity f).isSome) (init xs : List Value) :
+    spreadApply (f :: (init ++ [Value.ofList xs])) = .ok (f, init ++ xs) := by
+  obtain ⟨a, ha⟩ := Option.isSome_iff_exists.mp hf
+  simp only [spreadApply, ha, List.getLast?_append, List.getLast?_singleton, List.dropLast_concat]
+  cases xs <;> simp [Value.ofList, Value.elems, elems_ofList]
+
+/-- `(apply f a … lst)` with a proper list `lst` -/
+theorem PApp.apply {f : Value} {init xs : List Value} {r} (hf : (procArity f).isSome)
+    (h : PApp b f (init ++ xs) r) : PApp b (.builtin .apply) (f :: (init ++ [Value.ofList xs])) r := by
+  intro σ env hl
+  obtain ⟨σ', h', e⟩ := h σ env hl
+  exact ⟨σ', Applies.apply (by simp) (spreadApply_ofList hf init xs) h', e⟩
+
+theorem PApp.apply1 {f : Value} {xs : List Value} {r} (hf : (procArity f).isSome)
+    (h : PApp b f xs r) : PApp b (.builtin .apply) [f, Value.ofList xs] r :=
+  PApp.apply (init := []) hf h
+theorem PApp.apply2 {f a : Value} {xs : List Value} {r} (hf : (procArity f).isSome)
+    (h : PApp b f (a :: xs) r) : PApp b (.builtin .apply) [f, a, Value.ofList xs] r :=
+  PApp.apply (init := [a]) hf h
+
+end append
+
+section procs4
+variable (b : Nat)
+
+theorem papp_append_nil : PApp b (libProc "append" b) [] (.ok .nil) := by
+  rw [libProc_append]
+  refine PApp.closure (by rfl) fun ρ => ?_
+  have test1 : PEval b ρ (paramDefs ⟨[], some "lsts"⟩ []) (ca "null?" [sy "lsts"]) (.ok (.bool true)) :=
+    PEval.congr (PEval.call1 (k := fun v => .ok (.bool (isNil v))) (lkP 14) (procArity_libProc (i := 14) rfl)
+      (PEval.var (by rfl)) fun v _ => papp_null b v) rfl
+  refine PTail.cond test1 (fun tv h _ => ?_) (fun tv h ht => by cases h; simp at ht) (fun er h => by cases h)
+  exact PTail.thunk fun ρ' => PTail.value (by intros; simp) (by intros; simp) PEval.nil
+
+/-- `(append l …)`, by induction on the arguments and, inside, on the first one -/
+theorem papp_append (rest : List Value) : ∀ l : Value, PApp b (libProc "append" b) (l :: rest) (appendE (l :: rest)) := by
+  have hclo : (procArity (libProc "append" b)).isSome := procArity_libProc (i := 15) rfl
+  have test1 : ∀ (args : List Value) ρ, PEval b ρ (paramDefs ⟨[], some "lsts"⟩ args) (ca "null?" [sy "lsts"])
+      (.ok (.bool (isNil (Value.ofList args)))) := fun args ρ =>
+    PEval.congr (PEval.call1 (k := fun v => .ok (.bool (isNil v))) (lkP 14) (procArity_libProc (i := 14) rfl)
+      (PEval.var (by rfl)) fun v _ => papp_null b v) rfl
+  have vcdr : ∀ (l : Value) (rest : List Value) ρ, PEval b ρ (paramDefs ⟨[], some "lsts"⟩ (l :: rest))
+      (ca "cdr" [sy "lsts"]) (.ok (Value.ofList rest)) := fun l rest ρ =>
+    PEval.congr (PEval.call1 (lkB .cdr) (by rfl) (PEval.var (by rfl)) fun _ _ => PApp.cdr) rfl
+  have vcar : ∀ (l : Value) (rest : List Value) ρ, PEval b ρ (paramDefs ⟨[], some "lsts"⟩ (l :: rest))
+      (ca "car" [sy "lsts"]) (.ok l) := fun l rest ρ =>
+    PEval.congr (PEval.call1 (lkB .car) (by rfl) (PEval.var (by rfl)) fun _ _ => PApp.car) rfl
+  have test2 : ∀ (l : Value) (rest : List Value) ρ, PEval b ρ (paramDefs ⟨[], some "lsts"⟩ (l :: rest))
+      (ca "null?" [ca "cdr" [sy "lsts"]]) (.ok (.bool (isNil (Value.ofList rest)))) := fun l rest ρ =>
+    PEval.congr (PEval.call1 (k := fun v => .ok (.bool (isNil v))) (lkP 14) (procArity_libProc (i := 14) rfl)
+      (vcdr l rest ρ) fun v _ => papp_null b v) rfl
+  have test3 : ∀ (l : Value) (rest : List Value) ρ, PEval b ρ (paramDefs ⟨[], some "lsts"⟩ (l :: rest))
+      (ca "null?" [ca "car" [sy "lsts"]]) (.ok (.bool (isNil l))) := fun l rest ρ =>
+    PEval.congr (PEval.call1 (k := fun v => .ok (.bool (isNil v))) (lkP 14) (procArity_libProc (i := 14) rfl)
+      (vcar l rest ρ) fun v _ => papp_null b v) rfl
+  induction rest with
+  | nil =>
+    intro l
+    rw [libProc_append]
+    refine PApp.closure (by rfl) fun ρ => ?_
+    refine PTail.cond (test1 [l] ρ) (fun tv h ht => by cases h; simp [Value.ofList, isNil] at ht) (fun tv h _ => ?_)
+      (fun er h => by cases h)
+    refine PTail.cond (test2 l [] ρ) (fun tv h _ => ?_) (fun tv h ht => by cases h; simp [Value.ofList, isNil] at ht)
+      (fun er h => by cases h)
+    exact PTail.thunk fun ρ' => PTail.congr (PTail.call1 (lkB .car) (by rfl) (PEval.var (by rfl)) fun _ _ => PApp.car) rfl
+  | cons r rs ih =>
+    -- the part of the body common to all shapes of `l`
+    have body : ∀ (l : Value) (res : Except SErr Value),
+        (∀ ρ, isNil l = true → PTail b ρ (paramDefs ⟨[], some "lsts"⟩ (l :: r :: rs))
+          (ca "apply" [sy "append", ca "cdr" [sy "lsts"]]) res) →
+        (∀ ρ, isNil l = false → PTail b ρ (paramDefs ⟨[], some "lsts"⟩ (l :: r :: rs))
+          (ca "cons" [ca "caar" [sy "lsts"], ca "apply" [sy "append", ca "cdar" [sy "lsts"], ca "cdr" [sy "lsts"]]]) res) →
+        PApp b (libProc "append" b) (l :: r :: rs) res := by
+      intro l res h1 h2
+      rw [libProc_append]
+      refine PApp.closure (by rfl) fun ρ => ?_
+      refine PTail.cond (test1 (l :: r :: rs) ρ) (fun tv h ht => by cases h; simp [Value.ofList, isNil] at ht)
+        (fun tv h _ => ?_) (fun er h => by cases h)
+      refine PTail.cond (test2 l (r :: rs) ρ) (fun tv h ht => by cases h; simp [Value.ofList, isNil] at ht)
+        (fun tv h _ => ?_) (fun er h => by cases h)
+      refine PTail.cond (test3 l (r :: rs) ρ) (fun tv h ht => ?_) (fun tv h ht => ?_) (fun er h => by cases h)
+      · cases h; rw [truthy_bool] at ht
+        exact PTail.thunk fun ρ' => h1 ρ' ht
+      · cases h; rw [truthy_bool] at ht
+        exact PTail.thunk fun ρ' => h2 ρ' ht
+    have vcaar : ∀ (l : Value) ρ, PEval b ρ (paramDefs ⟨[], some "lsts"⟩ (l :: r :: rs))
+        (ca "caar" [sy "lsts"]) (carS l) := fun l ρ =>
+      PEval.congr (PEval.call1 (k := caarS) (lkP 0) (procArity_libProc (i := 0) rfl) (PEval.var (by rfl))
+        fun v _ => papp_caar b v) rfl
+    have vcdar : ∀ (l : Value) ρ, PEval b ρ (paramDefs ⟨[], some "lsts"⟩ (l :: r :: rs))
+        (ca "cdar" [sy "lsts"]) (cdrS l) := fun l ρ =>
+      PEval.congr (PEval.call1 (k := cdarS) (lkP 2) (procArity_libProc (i := 2) rfl) (PEval.var (by rfl))
+        fun v _ => papp_cdar b v) rfl
+    intro l
+    induction l with
+    | nil =>
+      refine body .nil _ (fun ρ _ => ?_) (fun ρ h => by simp [isNil] at h)
+      exact PTail.congr (PTail.call2 (k := fun _ _ => appendE (r :: rs)) (lkB .apply) (by rfl) (PEval.sym (lkP 15))
+        (vcdr .nil (r :: rs) ρ) fun v₁ v₂ h₁ h₂ => by
+          cases h₁; cases h₂
+          exact PApp.apply1 hclo (ih r)) rfl
+    | pair a d _ ihd =>
+      refine body (.pair a d) _ (fun ρ h => by simp [isNil] at h) (fun ρ _ => ?_)
+      refine PTail.congr (PTail.call2 (k := fun v₁ v₂ => .ok (.pair v₁ v₂)) (lkB .cons) (by rfl) (vcaar _ ρ)
+        (PEval.call3 (k := fun _ _ _ => appendE (d :: r :: rs)) (lkB .apply) (by rfl) (PEval.sym (lkP 15))
+          (vcdar _ ρ) (vcdr _ (r :: rs) ρ) fun v₁ v₂ v₃ h₁ h₂ h₃ => by
+            cases h₁; cases h₂; cases h₃
+            exact PApp.apply2 hclo ihd)
+        fun _ _ _ _ => PApp.cons) ?_
+      show (appendE (d :: r :: rs)).bind _ = (prependS d (appendE (r :: rs))).map _
+      simp only [appendE]
+      cases prependS d (appendE (r :: rs)) <;> rfl
+    | _ =>
+      refine body _ (.error typeErr) (fun ρ h => by simp [isNil] at h) (fun ρ _ => ?_)
+      exact PTail.congr (PTail.call2 (k := fun v₁ v₂ => .ok (.pair v₁ v₂)) (lkB .cons) (by rfl) (vcaar _ ρ)
+        (PEval.call3 (k := fun _ _ _ => .error typeErr) (lkB .apply) (by rfl) (PEval.sym (lkP 15))
+          (vcdar _ ρ) (vcdr _ (r :: rs) ρ) fun v₁ v₂ v₃ h₁ h₂ h₃ => by cases h₂)
+        fun _ _ _ _ => PApp.cons) rfl
+
+end procs4
 
 /-! ## 8. a store with the library frame -/
 
